@@ -159,6 +159,10 @@ def cases(tier, seed, i, n):
             for depth in ('created', 'connected', 'ready', 'end'):
                 for at in ('connecting', 'connected'):
                     yield dict(kind='overlap', v=v, depth=depth, at=at)
+        # two threads call connect() on the object at the same moment (a reconnect timer and the consumer): two attempts,
+        # two keys, each judged on its own
+        for r in range(6 if tier == 'quick' else 200):
+            yield dict(kind='connect-race', rseed=seed * 1000 + r, count=12, prob=(0.1, 0.3, 0.6)[r % 3])
         for r in range(300 if tier == 'quick' else 60000):
             yield dict(kind='prevkey', r=r)
         # every single cut of one correct and one wrong reply
@@ -178,6 +182,8 @@ def run_case(case, acc):
         return run_prevkey(case, acc)
     if k == 'overlap':
         return run_overlap(case, acc)
+    if k == 'connect-race':
+        return run_connect_race(case, acc)
     return run_reply(case, acc)
 
 
@@ -340,6 +346,56 @@ def run_prevkey(case, acc):
                       dict(events=r2.normed()))
     else:
         acc.cls('prevkey')
+
+
+def run_connect_race(case, acc):
+    """connect() itself touches no network: the two calls are interleaved line by line by the controlled scheduler
+    (random schedules), then each of the two iterators is driven in a world of its own."""
+    from .. import sched, env
+    rnd = random.Random(case['rseed'])
+    for _ in range(case['count']):
+        out = {}
+        with sched.InstalledShim():
+            ws = env.WebSocket('ws://example.com/', proxies={})
+            s = sched.Scheduler(rnd=random.Random(rnd.randrange(1 << 30)), switch_prob=case['prob'], files=('websocket.py', 'session.py'))
+
+            def mk(name):
+                def body():
+                    out[name] = ws.connect(session_class=simnet.SimSession, ping_rate=0)
+                return body
+            s.spawn('A', mk('A'))
+            s.spawn('B', mk('B'))
+            s.run(first=rnd.randrange(2), timeout=20.0)
+        if s.hung or len(out) != 2:
+            acc.inconclusive.append('connect-race: scheduler watchdog / a connect() call did not return: %r' % (sorted(out),))
+            continue
+        acc.count2('overlap', 'concurrent_connect_schedules')
+        acc.count2('overlap', 'context_switches', s.preemptions)
+        keys, evs = {}, {}
+        for name in ('A', 'B'):
+            w = H.World(H.hs_server([('raw', F(1, b'<<' + name.encode() + b'>>')), ('eof',)]))
+            names = []
+            with simnet.Installed(w):
+                try:
+                    for ev in out[name]:
+                        names.append(ev.name)
+                        if len(names) > 50:
+                            break
+                except (simnet.Quiesced, simnet.BudgetExceeded):
+                    names.append('<quiesced>')
+                except Exception as e:   # noqa
+                    names.append('<exception %r>' % (e,))
+            evs[name] = [n for n in names if n != 'poll']
+            keys[name] = refhttp.request_key(bytes(w.conns[0].tx)) if w.conns else None
+        key = None
+        if keys['A'] is not None and keys['A'] == keys['B']:
+            key = 'handshake-key-not-fresh:two-connect-calls-at-the-same-moment-share-one-state'
+        elif any(evs[n][:3] != ['connecting', 'connected', 'ready'] or 'text' not in evs[n] for n in evs):
+            key = 'no-ready-for-correct-reply:two-connect-calls-at-the-same-moment-share-one-state'
+        if key:
+            acc.violation(key, 'C10 %s' % key, dict(case, sig=s.schedule_signature()), dict(events=evs, keys=keys))
+            return
+    acc.cls('connect-race/%s' % case['prob'])
 
 
 def run_overlap(case, acc):
